@@ -288,6 +288,18 @@ pub fn main(args: &[String]) {
                 }
             }
         }
+        "dependent" => {
+            // conversion of STUCK terms under binders decides acceptance: f : p E1 -> int applied to x : p E2
+            for _ in 0..count {
+                emit(dependent_program(&mut r), "dependent");
+            }
+        }
+        "typed" => {
+            let depth: usize = args.get(3).and_then(|s| s.parse().ok()).unwrap_or(3);
+            for _ in 0..count {
+                emit(typed_program(&mut r, depth), "typed");
+            }
+        }
         "alias" => {
             // groups whose annotations are alias chains through the group, in every order, used at ground type outside
             for _ in 0..count {
@@ -315,4 +327,290 @@ pub fn main(args: &[String]) {
         k => panic!("unknown generator {k}"),
     }
     print!("{out}");
+}
+
+// ---- type-directed generator: programs that are well typed BY CONSTRUCTION (fully annotated; groups, nested groups under
+// binders, higher-order functions, guarded mutual recursion).  Only the driver knows that; the verdicts are TLC's.
+#[derive(Clone, PartialEq, Debug)]
+pub enum Ty {
+    Int,
+    Bool,
+    Fun(Box<Ty>, Box<Ty>),
+}
+impl Ty {
+    fn show(&self) -> String {
+        match self {
+            Ty::Int => "int".into(),
+            Ty::Bool => "bool".into(),
+            Ty::Fun(a, b) => format!("({} -> {})", a.show(), b.show()),
+        }
+    }
+}
+
+#[derive(Clone)]
+struct Var {
+    name: String,
+    ty: Ty,
+    rec_arg: Option<String>, // a recursive function: may only be applied to `<rec_arg> - 1`
+}
+
+pub struct TypedGen<'r> {
+    r: &'r mut StdRng,
+    next: usize,
+}
+impl TypedGen<'_> {
+    fn fresh(&mut self, p: &str) -> String {
+        self.next += 1;
+        format!("{p}{}", self.next)
+    }
+    fn ground(&mut self) -> Ty {
+        if self.r.gen_bool(0.7) { Ty::Int } else { Ty::Bool }
+    }
+    fn fun_ty(&mut self) -> Ty {
+        match self.r.gen_range(0..4) {
+            0 => Ty::Fun(Box::new(Ty::Int), Box::new(Ty::Int)),
+            1 => Ty::Fun(Box::new(Ty::Int), Box::new(Ty::Bool)),
+            2 => Ty::Fun(Box::new(Ty::Bool), Box::new(Ty::Int)),
+            _ => Ty::Fun(Box::new(Ty::Fun(Box::new(Ty::Int), Box::new(Ty::Int))), Box::new(Ty::Int)),
+        }
+    }
+    pub fn expr(&mut self, env: &[Var], ty: &Ty, depth: usize) -> String {
+        let leafy = depth == 0;
+        // variables and applications of variables that produce `ty`
+        let mut options: Vec<String> = vec![];
+        for v in env {
+            if v.rec_arg.is_none() && v.ty == *ty {
+                options.push(v.name.clone());
+            }
+        }
+        if !leafy {
+            for v in env.iter().rev().take(12) {
+                if let Ty::Fun(a, b) = &v.ty {
+                    if **b == *ty {
+                        let arg = match &v.rec_arg {
+                            Some(n) => format!("({n} - 1)"),
+                            None => self.expr(env, a, depth - 1),
+                        };
+                        options.push(format!("({} {})", v.name, arg));
+                    }
+                }
+            }
+        }
+        let pick_var = !options.is_empty() && self.r.gen_bool(if leafy { 0.7 } else { 0.35 });
+        if pick_var {
+            return options.choose(self.r).unwrap().clone();
+        }
+        if leafy {
+            return match ty {
+                Ty::Int => self.r.gen_range(0..10).to_string(),
+                Ty::Bool => if self.r.gen_bool(0.5) { "true".into() } else { "false".into() },
+                Ty::Fun(a, b) => {
+                    let x = self.fresh("p");
+                    let mut e2 = env.to_vec();
+                    e2.push(Var { name: x.clone(), ty: (**a).clone(), rec_arg: None });
+                    format!("(({x} : {}) => {})", a.show(), self.expr(&e2, b, 0))
+                }
+            };
+        }
+        let d = depth - 1;
+        match ty {
+            Ty::Fun(a, b) => {
+                let x = self.fresh("p");
+                let mut e2 = env.to_vec();
+                e2.push(Var { name: x.clone(), ty: (**a).clone(), rec_arg: None });
+                format!("(({x} : {}) => {})", a.show(), self.expr(&e2, b, d))
+            }
+            _ => match self.r.gen_range(0..10) {
+                0 | 1 if *ty == Ty::Int => {
+                    let op = ["+", "-", "*", "+", "-"][self.r.gen_range(0..5)];
+                    format!("({} {op} {})", self.expr(env, &Ty::Int, d), self.expr(env, &Ty::Int, d))
+                }
+                2 if *ty == Ty::Int => format!("({} / {})", self.expr(env, &Ty::Int, d), self.r.gen_range(1..5)),
+                3 if *ty == Ty::Int => format!("(- {})", self.expr(env, &Ty::Int, d)),
+                0..=3 => {
+                    let op = ["<", "<=", "==", ">", ">="][self.r.gen_range(0..5)];
+                    format!("({} {op} {})", self.expr(env, &Ty::Int, d), self.expr(env, &Ty::Int, d))
+                }
+                4 | 5 => format!("(if {} then {} else {})", self.expr(env, &Ty::Bool, d), self.expr(env, ty, d), self.expr(env, ty, d)),
+                6 => {
+                    // immediately applied function
+                    let a = self.ground();
+                    let f = self.expr(env, &Ty::Fun(Box::new(a.clone()), Box::new(ty.clone())), d);
+                    format!("({f} {})", self.expr(env, &a, d))
+                }
+                _ => self.group(env, ty, d),
+            },
+        }
+    }
+    // a definition group (1..3 definitions, possibly recursive functions) around a body of type `ty`
+    fn group(&mut self, env: &[Var], ty: &Ty, d: usize) -> String {
+        let n = self.r.gen_range(1..4);
+        // decide the definitions: functions first in the environment sense (they do not mention the group's non-values)
+        let mut funs: Vec<(String, Ty, bool)> = vec![];
+        let mut vals: Vec<(String, Ty)> = vec![];
+        for _ in 0..n {
+            if self.r.gen_bool(0.5) {
+                let t = if self.r.gen_bool(0.7) { Ty::Fun(Box::new(Ty::Int), Box::new(self.ground())) } else { self.fun_ty() };
+                let recursive = matches!(&t, Ty::Fun(a, _) if **a == Ty::Int) && self.r.gen_bool(0.6);
+                funs.push((self.fresh("f"), t, recursive));
+            } else {
+                let t = self.ground();
+                vals.push((self.fresh("x"), t));
+            }
+        }
+        // texts of the definitions
+        let mut defs: Vec<(String, String)> = vec![]; // (name : type, definition)
+        for (name, t, recursive) in &funs {
+            let Ty::Fun(a, b) = t else { unreachable!() };
+            let text = if *recursive {
+                let nvar = self.fresh("n");
+                let mut base_env = env.to_vec();
+                base_env.push(Var { name: nvar.clone(), ty: Ty::Int, rec_arg: None });
+                let base = self.expr(&base_env, b, d.min(1));
+                let mut rec_env = base_env.clone();
+                for (g, gt, grec) in &funs {
+                    if *grec {
+                        rec_env.push(Var { name: g.clone(), ty: gt.clone(), rec_arg: Some(nvar.clone()) });
+                    } else if g != name {
+                        let _ = gt;
+                    }
+                }
+                let step = self.expr(&rec_env, b, d);
+                format!("(({nvar} : int) => (if ({nvar} <= 0) then {base} else {step}))")
+            } else {
+                let x = self.fresh("p");
+                let mut e2 = env.to_vec();
+                e2.push(Var { name: x.clone(), ty: (**a).clone(), rec_arg: None });
+                format!("(({x} : {}) => {})", a.show(), self.expr(&e2, b, d))
+            };
+            defs.push((format!("{name} : {}", t.show()), text));
+        }
+        // callable view of the group's functions: a recursive one only with a small literal argument
+        let mut env2 = env.to_vec();
+        for (name, t, recursive) in &funs {
+            if !*recursive {
+                env2.push(Var { name: name.clone(), ty: t.clone(), rec_arg: None });
+            }
+        }
+        let rec_calls: Vec<(String, Ty)> = funs.iter().filter(|f| f.2).map(|f| (f.0.clone(), f.1.clone())).collect();
+        let mut val_env = env2.clone();
+        let call_rec = |s: &mut Self, ty: &Ty| -> Option<String> {
+            let c: Vec<&(String, Ty)> = rec_calls.iter().filter(|(_, t)| matches!(t, Ty::Fun(_, b) if **b == *ty)).collect();
+            c.choose(s.r).map(|(f, _)| format!("({f} {})", s.r.gen_range(0..5)))
+        };
+        for (name, t) in &vals {
+            let text = match call_rec(self, t) {
+                Some(c) if self.r.gen_bool(0.5) => c,
+                _ => self.expr(&val_env, t, d),
+            };
+            defs.push((format!("{name} : {}", t.show()), text));
+            val_env.push(Var { name: name.clone(), ty: t.clone(), rec_arg: None });
+        }
+        // order: interleave functions and values at random while keeping the values' relative order
+        let nf = funs.len();
+        let (fdefs, vdefs) = defs.split_at(nf);
+        let mut order: Vec<(String, String)> = vec![];
+        let (mut i, mut j) = (0, 0);
+        while i < fdefs.len() || j < vdefs.len() {
+            if j >= vdefs.len() || (i < fdefs.len() && self.r.gen_bool(0.5)) {
+                order.push(fdefs[i].clone());
+                i += 1;
+            } else {
+                order.push(vdefs[j].clone());
+                j += 1;
+            }
+        }
+        let body = match call_rec(self, ty) {
+            Some(c) if self.r.gen_bool(0.6) => c,
+            _ => self.expr(&val_env, ty, d),
+        };
+        let sep = |s: &mut Self| if s.r.gen_bool(0.3) { "\n" } else { "; " };
+        let mut out = String::from("(");
+        for (h, t) in order {
+            out += &format!("{h} = {t}");
+            out += sep(self);
+        }
+        out += &body;
+        out.push(')');
+        out
+    }
+}
+
+pub fn typed_program(r: &mut StdRng, depth: usize) -> String {
+    let ty = if r.gen_bool(0.75) { Ty::Int } else { Ty::Bool };
+    let mut g = TypedGen { r, next: 0 };
+    g.group(&[], &ty, depth)
+}
+
+
+// ---- dependent-type family: acceptance hinges on whether two neutral index expressions are convertible
+fn index_expr(r: &mut StdRng, depth: usize, want_bool: bool) -> Value {
+    let var = |i: u64| json!({"k": "var", "i": i, "n": "?"});
+    if want_bool {
+        return if depth == 0 || r.gen_bool(0.3) {
+            var(2) // b : bool
+        } else {
+            let op = ["lt", "le", "eq", "gt", "ge"][r.gen_range(0..5)];
+            json!({"k": "bin", "op": op, "a": index_expr(r, depth - 1, false), "b": index_expr(r, depth - 1, false)})
+        };
+    }
+    if depth == 0 {
+        return match r.gen_range(0..3) { 0 => var(0), 1 => var(1), _ => lit(r.gen_range(0..3)) }; // m, n, literal
+    }
+    match r.gen_range(0..8) {
+        0..=3 => {
+            let op = ["sum", "diff", "prod", "quot"][r.gen_range(0..4)];
+            json!({"k": "bin", "op": op, "a": index_expr(r, depth - 1, false), "b": index_expr(r, depth - 1, false)})
+        }
+        4 => json!({"k": "neg", "a": index_expr(r, depth - 1, false)}),
+        5 => json!({"k": "if", "c": index_expr(r, depth - 1, true), "a": index_expr(r, depth - 1, false), "b": index_expr(r, depth - 1, false)}),
+        6 => json!({"k": "app", "a": var(3), "b": index_expr(r, depth - 1, false)}), // g : int -> int
+        _ => index_expr(r, 0, false),
+    }
+}
+
+fn mutate_index(r: &mut StdRng, e: &Value) -> Value {
+    let mut pos = vec![];
+    positions(e, vec![], "root", &mut pos);
+    let (path, _) = pos.choose(r).unwrap().clone();
+    let mut out = e.clone();
+    let node = get_mut(&mut out, &path);
+    let k = node["k"].as_str().unwrap_or("").to_string();
+    let new = match (r.gen_range(0..4), k.as_str()) {
+        (0, "bin") | (0, "app") => {
+            let mut n = node.clone();
+            n["a"] = node["b"].clone();
+            n["b"] = node["a"].clone();
+            n
+        }
+        (1, "bin") => {
+            let mut n = node.clone();
+            let ops: &[&str] = if ["lt", "le", "eq", "gt", "ge"].contains(&node["op"].as_str().unwrap()) { &["lt", "le", "eq", "gt", "ge"] } else { &["sum", "diff", "prod", "quot"] };
+            n["op"] = json!(ops.choose(r).unwrap());
+            n
+        }
+        (_, "if") => json!({"k": "if", "c": node["c"], "a": node["b"], "b": node["a"]}),
+        (_, "var") => json!({"k": "var", "i": (node["i"].as_u64().unwrap() + 1) % 2, "n": "?"}),
+        (_, "lit") => lit(r.gen_range(0..3)),
+        (_, "neg") => node["a"].clone(),
+        _ => node.clone(),
+    };
+    *node = new;
+    out
+}
+
+pub fn dependent_program(r: &mut StdRng) -> String {
+    // context (outermost first): p : int -> type, g : int -> int, b : bool, n : int, m : int  => indices p=4 g=3 b=2 n=1 m=0
+    let dep = r.gen_range(1..4);
+    let e1 = index_expr(r, dep, false);
+    let e2 = match r.gen_range(0..3) { 0 => e1.clone(), _ => mutate_index(r, &e1) };
+    let pool = r.gen_range(0..4);
+    let mut u = c_pipe::Unparser::new(pool);
+    let mut env = vec!["p".to_string(), "g".to_string(), "b".to_string(), "n".to_string(), "m".to_string()];
+    let (s1, s2) = (u.go(&e1, &mut env), u.go(&e2, &mut env));
+    match r.gen_range(0..3) {
+        0 => format!("(p : int -> type) => (g : int -> int) => (b : bool) => (n : int) => (m : int) => (f : p ({s1}) -> int) => (x : p ({s2})) => f x"),
+        1 => format!("(p : int -> type) => (g : int -> int) => (b : bool) => (n : int) => (m : int) => (x : p ({s2})) => (y : p ({s1}) = x; y)"),
+        _ => format!("(p : int -> type) => (g : int -> int) => (b : bool) => (n : int) => (m : int) => (x : p ({s1})) => (h : (p ({s1}) -> int) -> int) => h ((z : p ({s2})) => 0)"),
+    }
 }
